@@ -51,6 +51,8 @@ type layers struct {
 	admitKey string
 	remove   func(key string) // partitioned strategies: remove the partition of that key (its outstanding tokens stay valid)
 	setLimit func(int)        // the strategy's own SetLimit (what the limiter calls at every window roll-over)
+	readd    func()           // partitioned strategies: add the removed partition objects again
+	charged  func(key string) string
 }
 
 func keyCtx(k string) context.Context {
@@ -90,7 +92,16 @@ func buildLayers(r *rand.Rand) layers {
 			}
 			return n
 		}
-		ly.remove = func(k string) { s.RemovePartition(k) }
+		gone := false
+		pb := ps["b"] // the strategy works on the caller's map: keep the object itself
+		ly.remove = func(k string) { s.RemovePartition(k); gone = true }
+		ly.readd = func() { s.AddPartition("b", pb); gone = false }
+		ly.charged = func(k string) string { // while "b" is not in the table its requests belong to the unknown bin
+			if k == "b" && gone {
+				return "zz"
+			}
+			return k
+		}
 	default:
 		var ps []*strategy.PredicatePartition
 		for _, k := range []string{"a", "b"} {
@@ -128,11 +139,18 @@ func buildLayers(r *rand.Rand) layers {
 			}
 			return -1
 		}
+		var removed []*strategy.PredicatePartition
 		ly.remove = func(k string) {
 			if k == "b" {
-				s.RemovePartitionsMatching(keyCtx("b"))
+				removed, _ = s.RemovePartitionsMatching(keyCtx("b"))
 				removedB = true
 			}
+		}
+		ly.readd = func() { // the very objects the removal returned, in their old order: [a, b(, any)] again
+			for _, p := range removed {
+				s.AddPartition(p)
+			}
+			removedB = false
 		}
 	}
 	dl, err := limiter.NewDefaultLimiter(limit.NewFixedLimit("c02", limitV, nil), 1, 1, 0, 10, st, limit.NoopLimitLogger{}, core.EmptyMetricRegistryInstance)
@@ -181,7 +199,22 @@ func sequentialCase(idx int64, r *rand.Rand) {
 	if ly.remove != nil && r.IntN(2) == 0 {
 		removeAt = 10 + r.IntN(40)
 	}
+	readdAt := -1
+	if removeAt >= 0 && r.IntN(2) == 0 {
+		readdAt = removeAt + 1 + r.IntN(15)
+	}
 	for i := 0; i < 40+r.IntN(80); i++ {
+		if i == readdAt {
+			// the removed partition objects come back while tokens granted before the removal are still outstanding:
+			// those tokens are still charged to their bin and give their unit back to it
+			ly.readd()
+			ops = append(ops, fmt.Sprintf("re-add-partition(b) with %d of its tokens outstanding", perKey["b"]))
+			rt.Count("partition_readded_with_tokens_outstanding", int64(perKey["b"]))
+			if !check() {
+				return
+			}
+			continue
+		}
 		if i == removeAt {
 			// the partition goes away while some of its tokens are outstanding: completing them must still give back
 			// exactly one unit each
@@ -215,6 +248,9 @@ func sequentialCase(idx int64, r *rand.Rand) {
 				return
 			}
 			if ok {
+				if ly.charged != nil {
+					k = ly.charged(k)
+				}
 				held = append(held, tok{l, k})
 				perKey[k]++
 			}
